@@ -9,6 +9,7 @@ Three kinds of harness, always named as such in the evidence:
              history-unbounded, only the capacity is enumerated
   bounded    a bounded stand-in (symbolic history of stated length); never counted as proved
 """
+import fcntl
 import json
 import os
 import re
@@ -174,6 +175,9 @@ def run_groups(prop, groups, tier, log, cache=None):
     if todo:
         t0 = time.time()
         d = None
+        os.makedirs(CACHE, exist_ok=True)
+        lock = open(os.path.join(CACHE, ".vk-lock"), "w")
+        fcntl.flock(lock, fcntl.LOCK_EX)      # one Kani run at a time per target directory
         try:
             d = make_scratch(files)
             ws = os.path.join(d, "ws")
@@ -214,6 +218,8 @@ def run_groups(prop, groups, tier, log, cache=None):
         finally:
             if d:
                 shutil.rmtree(d, ignore_errors=True)
+            fcntl.flock(lock, fcntl.LOCK_UN)
+            lock.close()
     results = []
     for g, h in harnesses:
         r = cache[h["name"]]
